@@ -1,16 +1,22 @@
 #!/bin/bash
-# Apply every seeded change to /repo in turn, run the owning property's quick check, undo the change.
-# Usage: ./tools_seed_sweep.sh [ID ...]   (writes seeded/<id>/sweep.txt; never leaves /repo modified)
-cd "$(dirname "$0")"; V=$(pwd)
-ids=${@:-$(ls seeded)}
-for id in $ids; do
-  git -C /repo checkout -- . 2>/dev/null
-  if ! git -C /repo apply --check $V/seeded/$id/patch.diff 2>/dev/null; then echo "$id: PATCH DOES NOT APPLY" | tee seeded/$id/sweep.txt; continue; fi
-  git -C /repo apply $V/seeded/$id/patch.diff
-  out=$(timeout 1500 ./check $id quick 2>&1); rc=$?
-  git -C /repo checkout -- .
-  v=$(echo "$out" | grep -c '^VIOLATION')
-  lab=$(echo "$out" | grep 'harness=' | sed -E 's/.*harness=([^ ]+) (assert|panic|bigalloc|deadlock|exit) label=([^ ]+).*/\1:\3/' | sort -u | head -3 | tr '\n' ' ')
-  echo "$id: exit=$rc violations=$v $lab" | tee seeded/$id/sweep.txt
-done
-git -C /repo status --short | head -3
+# Run every seeded change (seeded/<dir>/patch.diff, must be caught: exit 1 with a VIOLATION) and every benign
+# control (seeded/<dir>/benign.diff, must pass: exit 0) against the owning property's quick check.
+# Each run uses its own scratch worktree of /repo HEAD (tools_try_patch.sh); /repo itself is never touched.
+# Usage: ./tools_seed_sweep.sh [dir ...]     (default: all of seeded/; PAR=3 runs in parallel)
+cd "$(dirname "$0")"
+export GOFLAGS=-mod=mod GOPROXY=off GOSUMDB=off GOTOOLCHAIN=local
+one() {
+  d=$1; f=$2; id=${d%%-*}
+  r=$(./tools_try_patch.sh seeded/$d/$f $id 2>&1 | tail -1)
+  case "$f" in
+    patch.diff)  want="exit=1"; out=sweep.txt;;
+    benign.diff) want="exit=0"; out=sweep_benign.txt;;
+  esac
+  if echo "$r" | grep -q "$want"; then v=AS-EXPECTED; else v=UNEXPECTED; fi
+  echo "$d $f: $v ($r)" | tee seeded/$d/$out
+}
+export -f one
+for d in ${@:-$(ls seeded)}; do
+  echo "$d patch.diff"
+  [ -f seeded/$d/benign.diff ] && echo "$d benign.diff"
+done | xargs -P ${PAR:-3} -L 1 bash -c 'one $0 $1'
